@@ -214,7 +214,7 @@ Proof.
   assert (LM0 : n_kind n0 <> Standard) by congruence.
   destruct (build_fails_ok V (fun _ => 1) one_pos n0 _ paths T0 EK0 F0) as (ng & qg & _ & STg & Fg & _).
   destruct (finish_nfa_lm_ok V (fun _ => 1) one_pos n0 _ paths T0 EK0 F0 Hnd' ng STg Fg LEN0 OP0 Hout NE0 LM0)
-    as (n2' & Hf & Hns & Hk2 & Htc & Hfail & Hoks & Hol & Hst).
+    as (n2' & Hf & Hns & Hk2 & Htc & Hfail & Hoks & Hol & Hst & _).
   rewrite En in Hf. inversion Hf; subst n2'; clear Hf.
   assert (Hlab : forall i st, nget i (n_states n2) = Some st -> forall c t, In (c, t) (n_edges st) -> c < 256) by (intros i st Hg; exact (proj2 (HA2 i st Hg))).
   assert (Hnode : forall t, node V n2 t <-> exists w, N0 V n0 w t) by (apply node2_iff; exact Htc).
@@ -303,7 +303,7 @@ Proof.
   assert (LM0 : n_kind n0 <> Standard) by congruence.
   destruct (build_fails_ok V len_utf8 len_utf8_pos n0 _ paths T0 EK0 F0) as (ng & qg & _ & STg & Fg & _).
   destruct (finish_nfa_lm_ok V len_utf8 len_utf8_pos n0 _ paths T0 EK0 F0 Hnd' ng STg Fg LEN0 OP0 Hout NE0 LM0)
-    as (n2' & Hf & Hns & Hk2 & Htc & Hfail & Hoks & Hol & Hst).
+    as (n2' & Hf & Hns & Hk2 & Htc & Hfail & Hoks & Hol & Hst & _).
   rewrite En in Hf. inversion Hf; subst n2'; clear Hf.
   assert (Hnode : forall t, node V n2 t <-> exists w, N0 V n0 w t) by (apply node2_iff; exact Htc).
   destruct (cw_init_array_inv _ _ _ _ _ Ei) as (Hb & Hbu & _).
